@@ -5,6 +5,9 @@ import (
 	"context"
 	"encoding/json"
 	"fmt"
+	"net/http"
+	"net/http/httptest"
+	"net/url"
 	"os"
 	"reflect"
 	"runtime"
@@ -18,7 +21,8 @@ import (
 	"github.com/vektah/gqlparser/v2/parser"
 
 	"github.com/99designs/gqlgen/graphql"
-	"github.com/99designs/gqlgen/graphql/executor"
+	"github.com/99designs/gqlgen/graphql/handler"
+	"github.com/99designs/gqlgen/graphql/handler/transport"
 )
 
 // ---------------------------------------------------------------------------------------
@@ -352,7 +356,7 @@ type Observed struct {
 type Harness struct {
 	ES     graphql.ExecutableSchema
 	Schema *ast.Schema
-	Exec   *executor.Executor
+	Srv    *handler.Server
 	Stub   any
 	fnType map[string]reflect.Type // lower-cased GraphQL field name -> resolver func type
 	IDKind string
@@ -362,8 +366,10 @@ func norm(s string) string { return strings.ToLower(strings.ReplaceAll(s, "_", "
 
 func NewHarness(es graphql.ExecutableSchema, stub any) *Harness {
 	h := &Harness{ES: es, Schema: es.Schema(), Stub: stub, fnType: map[string]reflect.Type{}}
-	h.Exec = executor.New(es)
-	h.Exec.SetRecoverFunc(func(ctx context.Context, err any) error {
+	h.Srv = handler.New(es)
+	h.Srv.AddTransport(transport.GET{})
+	h.Srv.AddTransport(transport.POST{})
+	h.Srv.SetRecoverFunc(func(ctx context.Context, err any) error {
 		return fmt.Errorf("PANIC: %v", err)
 	})
 	qr := reflect.ValueOf(stub).Elem().FieldByName("QueryResolver")
@@ -410,46 +416,63 @@ func pathStrings(p ast.Path) []string {
 	return out
 }
 
-// Run executes one request exactly as a transport would: the body is decoded with
-// json.Decoder.UseNumber into graphql.RawParams and handed to the executor.
+// Run sends one request through gqlgen's own transports (handler.Server with
+// transport.POST / transport.GET on an httptest recorder, no sockets): the body or query
+// string is decoded by the transport itself (json.Decoder.UseNumber), so the `variables`
+// carrier (key absent, null, {}, object) reaches the executor exactly as in production.
 func (h *Harness) Run(c Case) (obs Observed) {
-	body := `{"query":` + strconv.Quote(c.Query)
-	if c.Vars != "" {
-		body += `,"variables":` + c.Vars
-	}
-	body += "}"
-	var params graphql.RawParams
-	dec := json.NewDecoder(bytes.NewReader([]byte(body)))
-	dec.UseNumber()
-	if err := dec.Decode(&params); err != nil {
-		broken("request body does not decode: %v: %s", err, body)
+	var req *http.Request
+	if c.Transport == "GET" {
+		u := "/query?query=" + url.QueryEscape(c.Query)
+		if c.Vars != "" {
+			u += "&variables=" + url.QueryEscape(c.Vars)
+		}
+		req = httptest.NewRequest("GET", u, nil)
+	} else {
+		body := `{"query":` + strconv.Quote(c.Query)
+		if c.Vars != "" {
+			body += `,"variables":` + c.Vars
+		}
+		body += "}"
+		req = httptest.NewRequest("POST", "/query", strings.NewReader(body))
+		req.Header.Set("Content-Type", "application/json")
 	}
 	rec := &recorder{}
 	obs = Observed{rec: rec}
-	ctx := context.WithValue(context.Background(), recKey{}, rec)
-	ctx = graphql.StartOperationTrace(ctx)
-	// a panic that escapes the executor is caught by the transports' recover in
-	// handler.Server.ServeHTTP; it is recorded here as a request error tagged PANIC
-	defer func() {
-		if r := recover(); r != nil {
-			obs = Observed{rec: rec, Gate: []ErrInfo{{nil, fmt.Sprintf("PANIC: escaped the executor: %v", r)}}}
-		}
-	}()
-	oc, errs := h.Exec.CreateOperationContext(ctx, &params)
-	if len(errs) > 0 {
-		for _, e := range errs {
-			obs.Gate = append(obs.Gate, ErrInfo{pathStrings(e.Path), e.Message})
-		}
-		return obs
+	req = req.WithContext(context.WithValue(context.Background(), recKey{}, rec))
+	w := httptest.NewRecorder()
+	// (a panic that escapes the executor is caught by Server.ServeHTTP's recover and
+	// presented through the recover function, which tags it PANIC)
+	h.Srv.ServeHTTP(w, req)
+	var resp struct {
+		Data   json.RawMessage `json:"data"`
+		Errors []struct {
+			Message string `json:"message"`
+			Path    []any  `json:"path"`
+		} `json:"errors"`
 	}
-	rh, rctx := h.Exec.DispatchOperation(ctx, oc)
-	resp := rh(rctx)
-	if resp == nil {
-		broken("no response for %s", c.Query)
+	dec := json.NewDecoder(bytes.NewReader(w.Body.Bytes()))
+	dec.UseNumber()
+	if err := dec.Decode(&resp); err != nil {
+		broken("response of %s is not JSON: %v: %.300s", c, err, w.Body.String())
 	}
-	obs.Data = string(resp.Data)
+	executed := len(resp.Data) > 0 && string(resp.Data) != "null"
+	if executed {
+		obs.Data = string(resp.Data)
+	}
 	for _, e := range resp.Errors {
-		obs.Errors = append(obs.Errors, ErrInfo{pathStrings(e.Path), e.Message})
+		var path []string
+		for _, pe := range e.Path {
+			path = append(path, fmt.Sprint(pe))
+		}
+		if executed {
+			obs.Errors = append(obs.Errors, ErrInfo{path, e.Message})
+		} else {
+			obs.Gate = append(obs.Gate, ErrInfo{path, e.Message})
+		}
+	}
+	if !executed && len(obs.Gate) == 0 {
+		broken("response of %s has neither data nor errors: %.300s", c, w.Body.String())
 	}
 	for _, cl := range rec.calls {
 		parts := make([]string, len(cl.Args))
